@@ -37,6 +37,7 @@ KANI_UNITS = {
             dict(name='atomic_instant_roundtrip', tags=['C07', 'C05', 'C06'], function='AtomicInstant', what='AtomicInstant (RwLock<Option<Instant>>): default is unset, set_instant / instant / is_set / new round-trip: complete for one thread'),
             dict(name='housekeeper_full_queue_always_triggers', tags=['C04', 'C08'], function='Housekeeper::should_apply', what='a queue at its flush point triggers maintenance whatever the clock says; the read / write entry points pass on their own flush point: complete'),
             dict(name='housekeeper_try_sync_runs_one_pass', tags=['C10', 'C08'], function='Housekeeper::try_sync', what='try_sync runs exactly one maintenance pass with MAX_SYNC_REPEATS, releases its flag afterwards, and does not enter a pass that is already running: complete for one thread'),
+            dict(name='entry_node_stamp_coupling', tags=['C03', 'C05', 'C06', 'C08'], function='AccessTime for ValueEntry', what='the entry <-> node stamp coupling on the real code (content of the Verus axioms axiom_stamp_ao / axiom_stamp_wo and of the assumed ValueEntry setters, src/unsync.rs): an entry stamp IS the timestamp field of the node its slot points to; what a scan reads through peek_front is what the entry getters return; no node, no stamp. One entry, symbolic stamps: complete for one entry (unwind 3 = Drop of the emptied lists, unwinding assertion on)', timeout=1500),
             dict(name='seq_3x3', tags=['C08', 'C11', 'C12'], function='Deque', bounded='3 nodes x 3 symbolic operations, unwind 10', what='operation sequences on the real list with a structural walker after every step and Drop at the end', timeout=1500),
             dict(name='deques_tagged_rc', tags=['C08', 'C11', 'C07', 'C05'], function='unsync::Deques', bounded='2 entries, 1 symbolic move, unwind 6', what='tagged-pointer region dispatch never reaches unreachable!/panic!; key clones released exactly when nodes are unlinked (Rc::strong_count)', timeout=1500),
             dict(name='weigh_defaults_to_one', tags=['C17'], function='weigh', what='weigh(None, k, v) == 1 for all k, v: complete'),
